@@ -17,16 +17,20 @@ def main():
     ap.add_argument("--dump", default=None, help="dump SMT of obligations whose name contains this")
     ap.add_argument("-v", action="store_true")
     a = ap.parse_args()
+    import os
+    os.environ.setdefault("GOVC_CONTRACTS", "mirror")
     t0 = time.time()
     V = Verifier(a.repo, a.tags, a.contracts, a.timeout, jobs=a.jobs)
     print("loaded in %.1fs; contracts from %s" % (time.time() - t0, V.contract_files))
     tot = ok = 0
-    for f in V.functions_with_contracts():
-        name = V.display_name(f)
+    items = [("lemma", n) for n in sorted(V.contracts.lemmas)] + [("func", f) for f in V.functions_with_contracts()]
+    for kind, f in items:
+        name = ("lemma$" + f) if kind == "lemma" else V.display_name(f)
         if a.only and not any(x in name for x in a.only.split(",")):
             continue
         t1 = time.time()
-        rec = V.verify_function(f)
+        rec = V.verify_lemma(f) if kind == "lemma" else V.verify_function(f)
+        name = rec["name"]
         V.discharge(rec["obligations"])
         bad = [o for o in rec["obligations"] if o.result is None or o.result.status != "unsat"]
         n = len(rec["obligations"])
